@@ -170,7 +170,7 @@ func baseStrats(ctx *run.Ctx, nrand int) []namedStrat {
 				// Same configuration reached the other way: construct with the
 				// defaults, then set every public field (anything cached at
 				// construction time would now be stale).
-				used := ci%4 == 3
+				used := (ci/2)%2 == 0 // cfg1, cfg5, ...: after a first use; cfg3, cfg7, ...: fresh
 				mk = func() strategy.Strategy {
 					d := row.New(row.Default)
 					if used {
@@ -254,6 +254,12 @@ func compoundStrats(ctx *run.Ctx, base []namedStrat, count int) []namedStrat {
 		add(fmt.Sprintf("strategy.AndStrategy (%s | %s)", a.Name, b.Name), w2, func() strategy.Strategy {
 			return strategy.NewAndStrategy("and", a.New(), b.New())
 		})
+		if i%2 == 1 {
+			plusOne = allPlus(a, b, c)
+			add(fmt.Sprintf("strategy.AndStrategy (%s | %s | %s)", a.Name, b.Name, c.Name), w3, func() strategy.Strategy {
+				return strategy.NewAndStrategy("and3", a.New(), b.New(), c.New())
+			})
+		}
 		plusOne = allPlus(a, b, c)
 		add(fmt.Sprintf("strategy.OrStrategy (%s | %s | %s)", a.Name, b.Name, c.Name), w3, func() strategy.Strategy {
 			return strategy.NewOrStrategy("or", a.New(), b.New(), c.New())
@@ -275,6 +281,25 @@ func compoundStrats(ctx *run.Ctx, base []namedStrat, count int) []namedStrat {
 		})
 		add(fmt.Sprintf("decorator.StopLossStrategy (decorator.InverseStrategy (%s))", b.Name), b.Warm, func() strategy.Strategy {
 			return decorator.NewStopLossStrategy(decorator.NewInverseStrategy(b.New()), 0.02)
+		})
+	}
+	// ONE instance wired into both (all) positions of a compound.
+	for i := 0; i < min(count, 3); i++ {
+		a := pick()
+		plusOne = a.PlusOne
+		add(fmt.Sprintf("strategy.SplitStrategy (%s | the same instance)", a.Name), a.Warm, func() strategy.Strategy {
+			x := a.New()
+			return strategy.NewSplitStrategy(x, x)
+		})
+		plusOne = a.PlusOne
+		add(fmt.Sprintf("strategy.AndStrategy (%s | the same instance)", a.Name), a.Warm, func() strategy.Strategy {
+			x := a.New()
+			return strategy.NewAndStrategy("and", x, x)
+		})
+		plusOne = a.PlusOne
+		add(fmt.Sprintf("strategy.MajorityStrategy (%s | the same instance x 3)", a.Name), a.Warm, func() strategy.Strategy {
+			x := a.New()
+			return strategy.NewMajorityStrategyWith("majority", []strategy.Strategy{x, x, x})
 		})
 	}
 	add("compound.MacdRsiStrategy default", 33, func() strategy.Strategy { return compound.NewMacdRsiStrategy() })
@@ -315,6 +340,43 @@ func compoundStrats(ctx *run.Ctx, base []namedStrat, count int) []namedStrat {
 		}
 	}
 	return out
+}
+
+// periodOrder lists, for the types whose documentation names a short/fast and
+// a long/slow period (and whose pipelines align the branches on that
+// assumption), whether a list of periods is in the documented order.
+var periodOrder = map[string]func(i []int) bool{
+	"momentum.AwesomeOscillator":                 func(i []int) bool { return i[0] <= i[1] },
+	"momentum.AwesomeOscillatorStrategy":         func(i []int) bool { return i[0] <= i[1] },
+	"momentum.ChaikinOscillator":                 func(i []int) bool { return i[0] <= i[1] },
+	"momentum.IchimokuCloud":                     func(i []int) bool { return i[0] <= i[1] && i[1] <= i[2] },
+	"momentum.Ppo":                               func(i []int) bool { return i[0] <= i[1] },
+	"momentum.Pvo":                               func(i []int) bool { return i[0] <= i[1] },
+	"momentum.TripleRsiStrategy":                 func(i []int) bool { return i[0] <= i[1] }, // RSI period, SMA period
+	"trend.Macd":                                 func(i []int) bool { return i[0] <= i[1] },
+	"trend.MacdStrategy":                         func(i []int) bool { return i[0] <= i[1] },
+	"trend.GoldenCrossStrategy":                  func(i []int) bool { return i[0] <= i[1] },
+	"trend.TrimaStrategy":                        func(i []int) bool { return i[0] <= i[1] },
+	"trend.TripleMovingAverageCrossoverStrategy": func(i []int) bool { return i[0] <= i[1] && i[1] <= i[2] },
+	"volatility.KeltnerChannel":                  func(i []int) bool { return i[1] <= i[0]+1 }, // ATR period, EMA period
+}
+
+// invertedWitness: one configuration per listed type in the inverted order,
+// run on every seed so that the known-finding lines do not depend on it.
+var invertedWitness = map[string][]int{
+	"momentum.AwesomeOscillator":                 {10, 5},
+	"momentum.AwesomeOscillatorStrategy":         {14, 1},
+	"momentum.ChaikinOscillator":                 {10, 2},
+	"momentum.IchimokuCloud":                     {12, 4, 3, 3},
+	"momentum.Ppo":                               {10, 4, 4},
+	"momentum.Pvo":                               {11, 2, 2},
+	"momentum.TripleRsiStrategy":                 {7, 5, 2},
+	"trend.Macd":                                 {12, 9, 4},
+	"trend.MacdStrategy":                         {12, 9, 7},
+	"trend.GoldenCrossStrategy":                  {10, 8},
+	"trend.TrimaStrategy":                        {28, 1},
+	"trend.TripleMovingAverageCrossoverStrategy": {12, 5, 4},
+	"volatility.KeltnerChannel":                  {4, 11},
 }
 
 func lengthsAround(w int) []int {
@@ -375,6 +437,91 @@ func c03(ctx *run.Ctx) {
 				}
 			}
 		}
+	}
+	// --- configurations without the usual ordering (fast > slow, signal longer
+	// than both, ...): termination, leak-freedom and schedule independence are
+	// claimed for ALL configurations, only the values are not. Cases whose
+	// periods contradict the order the type's documentation assumes carry the
+	// label "inverted/<type>/..." (see periodOrder), the others "anyorder/...".
+	unordered := func(name string, base reg.Cfg, k int) (reg.Cfg, string) {
+		r := gen.New(ctx.Seed, fmt.Sprintf("anycfg/%s/%d", name, k))
+		cfg := base
+		ints := append([]int(nil), cfg.I...)
+		switch k % 3 {
+		case 0: // the admissible values in another order
+			p := r.Perm(len(ints))
+			for i := range ints {
+				ints[i] = cfg.I[p[i]]
+			}
+		case 1: // reversed
+			for i := range ints {
+				ints[i] = cfg.I[len(ints)-1-i]
+			}
+		default: // unrelated periods, small and large mixed
+			for i := range ints {
+				ints[i] = r.Pick(1, 2, r.Range(1, 12), r.Range(10, 45))
+			}
+		}
+		cfg.I = ints
+		family := "anyorder"
+		if ok, listed := periodOrder[name]; listed && !ok(ints) {
+			family = "inverted"
+		}
+		return cfg, fmt.Sprintf("%s/%s/%d", family, name, k)
+	}
+	indAny := func(ind *reg.Indicator, cfg reg.Cfg, label string) {
+		ctx.Checkpoint() // these cases may end in a process-fatal runtime deadlock
+		ctx.Case(label, func(cc *run.Case) {
+			n := 160
+			inputs := indInputs(ind, gen.Bars(cc.R, gen.Walk, n), nil)
+			what := fmt.Sprintf("%s %v (periods in no particular order)", ind.Name, cfg)
+			pipeCase(cc, census, ctx, what, map[string]any{"pipeline": what, "n": n}, inputs, len(ind.Out),
+				func(in []<-chan float64) []<-chan float64 { return ind.New(cfg).Compute(in) }, bitsEq)
+			cc.Count("unordered_configuration_cases", 1)
+		})
+	}
+	stratAny := func(row *reg.Strat, cfg reg.Cfg, label string) {
+		ctx.Checkpoint()
+		ctx.Case(label, func(cc *run.Case) {
+			n := 160
+			snaps := reg.Snaps(gen.Bars(cc.R, gen.Walk, n))
+			what := fmt.Sprintf("%s %v (periods in no particular order)", row.Name, cfg)
+			pipeCase(cc, census, ctx, what, map[string]any{"pipeline": what, "n": n}, [][]*asset.Snapshot{snaps}, 1,
+				stratBuild(row.New(cfg)), eqActions)
+			cc.Count("unordered_configuration_cases", 1)
+		})
+	}
+	for _, ind := range reg.Sorted() {
+		if len(ind.Default.I) < 2 {
+			continue
+		}
+		for k := 0; k < ctx.Pick(4, 24); k++ {
+			cfg, label := unordered(ind.Name, ind.Rand(gen.New(ctx.Seed, fmt.Sprintf("anycfg0/%s/%d", ind.Name, k))), k)
+			indAny(ind, cfg, label)
+		}
+		if w, ok := invertedWitness[ind.Name]; ok { // fixed witness of the known finding
+			cfg := ind.Default
+			cfg.I = w
+			indAny(ind, cfg, "inverted/"+ind.Name+"/witness")
+		}
+	}
+	for _, row := range reg.SortedStrats() {
+		if len(row.Default.I) < 2 {
+			continue
+		}
+		for k := 0; k < ctx.Pick(4, 24); k++ {
+			cfg, label := unordered(row.Name, row.Rand(gen.New(ctx.Seed, fmt.Sprintf("anycfg0/%s/%d", row.Name, k))), k)
+			stratAny(row, cfg, label)
+		}
+		if w, ok := invertedWitness[row.Name]; ok {
+			cfg := row.Default
+			cfg.I = w
+			stratAny(row, cfg, "inverted/"+row.Name+"/witness")
+		}
+	}
+	// --- one party really stops for more than a second ---
+	for b := 0; b < ctx.Pick(1, 3); b++ {
+		ctx.Case(fmt.Sprintf("stalled/%d", b), c03Stalled)
 	}
 	// --- strategies ---
 	base := baseStrats(ctx, ctx.Pick(1, 8))
